@@ -282,8 +282,8 @@ Proof.
                 { unfold WcC.has_reserved in *. cbn [existsb]. rewrite Hpost. apply Bool.orb_true_r. }
                 { cbn [forallb]. rewrite Hv, Hpost. reflexivity. }
     + (* something is there already *)
-      destruct (p_lstat w1 (dir ++ [c])) as [m w2] eqn:E2.
-      apply p_lstat_spec in E2 as [Htr2 [Hfs2 Hm]]. rewrite Hfs1, safe_snoc, Hd in *.
+      destruct (p_lstat_q w1 (dir ++ [c])) as [m w2] eqn:E2.
+      apply p_lstat_q_spec in E2 as [Htr2 [Hfs2 Hm]]. rewrite Hfs1, safe_snoc, Hd in *.
       assert (Hs2 : all_safe w2) by (eapply all_safe_cons; eauto).
       destruct Hm as [[_ Hm]|[_ Hm]]; [discriminate|].
       destruct (lookup (w_fs w) (dir ++ [c])) as [e|] eqn:El; [|congruence]. subst m.
@@ -395,8 +395,8 @@ Proof.
       * eapply wf_upd_none; eauto. left. intros E. rewrite E in Hleaf. discriminate.
       * destruct Hrr as [Hrr|Hrr]; [rewrite Hrr in Hleaf; discriminate | exact Hrr].
     + subst r. cbn. splits; rewrite ?Hfs2; auto.
-    + destruct (p_lstat w2 p) as [m w3] eqn:E3.
-      apply p_lstat_spec in E3 as [Htr3 [Hfs3 Hm]]. rewrite Hfs2, Hsafe in *.
+    + destruct (p_lstat_q w2 p) as [m w3] eqn:E3.
+      apply p_lstat_q_spec in E3 as [Htr3 [Hfs3 Hm]]. rewrite Hfs2, Hsafe in *.
       assert (Hs3 : all_safe w3) by (eapply all_safe_cons; eauto).
       destruct Hm as [[_ Hm]|[_ Hm]]; [discriminate|]. rewrite Hdir in Hm. subst m r. cbn.
       splits; rewrite ?Hfs3; auto. right. split; auto.
@@ -497,7 +497,14 @@ Proof.
   assert (Hs1 : all_safe w1) by (eapply all_safe_cons; eauto).
   destruct Hc as [[-> [_ [Hnone Hfs1]]]|[[-> [_ [Hsome Hfs1]]]|[_ [? _]]]]; [| |discriminate].
   - assert (Hu1 : upd (w_fs w) (w_fs w1) p (Some (ESym t))) by (rewrite Hfs1; apply upd_set).
-    subst r. cbn. splits; auto. apply (wf_upd_some (w_fs w) (w_fs w1) p (ESym t)); auto; congruence.
+    assert (Hwf1 : wf_fs (w_fs w1)) by (apply (wf_upd_some (w_fs w) (w_fs w1) p (ESym t)); auto; congruence).
+    assert (Hd1 : all_dirs (w_fs w1) (parent p) = true) by (erewrite upd_parent_dirs; eauto).
+    assert (Hsafe1 : safe (w_fs w1) p = true) by now apply safe_of_parent.
+    destruct (p_lstat w1 p) as [m w2] eqn:E2.
+    apply p_lstat_spec in E2 as [Htr2 [Hfs2 Hm]]. rewrite Hsafe1 in *.
+    assert (Hs2 : all_safe w2) by (eapply all_safe_cons; eauto).
+    destruct Hm as [[_ Hm]|[_ Hm]]; [discriminate|]. rewrite (upd_same _ _ _ _ Hu1) in Hm. subst m r.
+    cbn. splits; rewrite ?Hfs2; auto.
   - subst r. cbn. splits; rewrite ?Hfs1; auto.
 Qed.
 
